@@ -8,12 +8,16 @@ package main
 import (
 	"bytes"
 	"context"
+	"errors"
 	"fmt"
+	"io"
+	"log/slog"
 	"math/rand"
 	"net/http"
 	"regexp"
 	"strings"
 	"sync"
+	"sync/atomic"
 	"time"
 
 	sse "github.com/tmaxmax/go-sse"
@@ -120,6 +124,36 @@ func (r *spubRes) Write(p []byte) (int, error) {
 }
 func (r *spubRes) Flush() {}
 
+// ghostRes: a response writer with FlushError whose second flush fails (and every call after that is counted)
+type ghostRes struct {
+	hdr       http.Header
+	flushes   atomic.Int32
+	failed    atomic.Bool
+	afterFail atomic.Int32
+}
+
+var errGhostFlush = errors.New("verif: the connection of this session is gone")
+
+func (r *ghostRes) Header() http.Header { return r.hdr }
+func (r *ghostRes) WriteHeader(int)     {} // (ServeHTTP answers the failed subscription with an error status: its own business)
+func (r *ghostRes) Write(p []byte) (int, error) {
+	if r.failed.Load() && !bytes.HasPrefix(p, []byte("verif:")) && !bytes.Contains(p, []byte("the connection of this session is gone")) {
+		r.afterFail.Add(1)
+	}
+	return len(p), nil
+}
+func (r *ghostRes) FlushError() error {
+	if r.failed.Load() {
+		r.afterFail.Add(1)
+		return errGhostFlush
+	}
+	if r.flushes.Add(1) >= 2 {
+		r.failed.Store(true)
+		return errGhostFlush
+	}
+	return nil
+}
+
 var spubData = regexp.MustCompile(`(?m)^data: m(\d+)$`)
 
 func runSPUBH(args []string) string {
@@ -145,6 +179,42 @@ func runSPUBH(args []string) string {
 	defer func() { sse.VerifHook = nil }()
 	ctx, cancel := context.WithCancel(context.Background())
 	defer cancel()
+	// every other case: the server logs (Server.Logger), and one more session — on a topic of its own — sits on a writer
+	// whose second flush fails: ServeHTTP returns for it, and it is not written to again, whatever else the server is doing
+	var ghost *ghostRes
+	ghostDone := make(chan struct{})
+	if (len(args[0])+len(args[1]))%2 == 0 {
+		server.Logger = func(*http.Request) *slog.Logger { return slog.New(slog.NewTextHandler(io.Discard, nil)) }
+		ghost = &ghostRes{hdr: http.Header{}}
+		greq, _ := http.NewRequestWithContext(ctx, http.MethodGet, "http://verif.invalid/", http.NoBody)
+		greq.Header.Set("X-Verif-Topics", "67686f7374")
+		go func() {
+			defer close(ghostDone)
+			server.ServeHTTP(ghost, greq)
+		}()
+		select {
+		case <-registered:
+		case <-time.After(10 * time.Second):
+			return "BLOCKED registration"
+		}
+		for j := 0; j < 2; j++ {
+			m := &sse.Message{}
+			m.AppendData(fmt.Sprint("ghost", j))
+			if err := server.Publish(m, "ghost"); err != nil {
+				return "PUBERR " + err.Error()
+			}
+		}
+		select {
+		case <-ghostDone:
+		case <-time.After(time.Second):
+			return "BAD:SERVE-DID-NOT-RETURN-AFTER-ITS-FLUSH-FAILED"
+		}
+		m := &sse.Message{}
+		m.AppendData("ghost2")
+		if err := server.Publish(m, "ghost"); err != nil {
+			return "PUBERR " + err.Error()
+		}
+	}
 	rs := make([]*spubRes, len(subs))
 	var wg sync.WaitGroup
 	for i, s := range subs {
@@ -178,6 +248,11 @@ func runSPUBH(args []string) string {
 		return "SHUTDOWN " + err.Error()
 	}
 	wg.Wait()
+	if ghost != nil {
+		if n := ghost.afterFail.Load(); n > 0 {
+			return fmt.Sprintf("BAD:WRITER-USED-%d-TIMES-AFTER-ITS-FLUSH-FAILED", n)
+		}
+	}
 	out := make([]string, len(rs))
 	for i, r := range rs {
 		var got []string
